@@ -398,7 +398,7 @@ def shapes(tier, seed):
     for (no, mp, utd, ne, sp) in taper:
         out.append(Shape(f"taper/o{no}/{mp}/utd={int(utd)}/e{ne}s{sp}", h_taper, dict(n_orbs=no, mapping=mp, utd=utd, ne=ne, spin=sp),
                          modules=MODS, max_paths=16))
-    for mk in (("H4", "H4+", "H4t", "H4+q") if tier == "quick" else ("H4", "H4+", "H4t", "H4+q", "H2", "H2t")):
+    for mk in (("H4", "H4+", "H4t", "H4+q", "H4dim") if tier == "quick" else ("H4", "H4+", "H4t", "H4+q", "H4dim", "H2", "H2t")):
         for mp in ("jw", "bk", "jkmn"):
             for utd in ((False, True) if (mk == "H4" or tier == "thorough") else (False,)):
                 out.append(Shape(f"taper_structure/{mk}/{mp}/utd={int(utd)}", h_taper_structure, dict(molkey=mk, mapping=mp, utd=utd), modules=()))
